@@ -498,15 +498,14 @@ def passPart (w : World) (x : Nat) : World :=
 /-! ### processors: failure, shutdown, restore -/
 
 /-- `_shutdown(is_failure, lost_part)` (with the repair of F6: a failure that arrives while the
-machine is already shut down still discards the machine's events and reports the lost part). -/
+machine is shut down with a part in process still discards the machine's events and reports the
+lost part). -/
 def shutdownDev (w : World) (x : Nat) (isFailure : Bool) (lost : Option Nat) : World :=
   let d := w.dev x
   if d.shutDown then
-    if isFailure then
+    if isFailure && lost.isSome then
       let w := w.envOp (.cancel d.aid)
-      if lost.isSome then
-        (List.range d.nShutCbs).foldl (fun w k => w.addRes (.shut x k true lost)) w
-      else w
+      (List.range d.nShutCbs).foldl (fun w k => w.addRes (.shut x k true lost)) w
     else w
   else
     let w := w.setDev x { d with shutDown := true }
